@@ -1,5 +1,5 @@
 /* F-THRIFT-DELTA-WRAP: thrift_write_field_header computes the field-id delta in int16_t, so id - last wraps:
- * previous id 32764, id -32768 gives delta 4 and the SHORT form 0x41 is written although the difference is
+ * previous id 32764, id -32768 gives delta 4 and the SHORT form (0x45 for an i32 field) is written although the difference is
  * -65532 (the compact protocol allows the short form only for 1 <= id - last <= 15).  A reader that adds the
  * delta without 16-bit wrap-around (e.g. the Python implementation) reconstructs id 32768.
  * Exit status 1 iff the defect manifests. */
